@@ -75,6 +75,8 @@ impl Engine for E {
                     ("grammar.ContractAddress.reject".into(), 300),
                     ("text.roundtrip.Timestamp".into(), 1000),
                     ("text.base58.independent".into(), 1000),
+                    ("text.timestamp_offset.positive".into(), 1000),
+                    ("text.timestamp_offset.negative".into(), 1000),
                     ("receive_name.construct.ok".into(), 1000),
                     ("receive_name.construct.rejected".into(), 100),
                     ("receive_name.entrypoint_dots.2".into(), 200),
@@ -99,7 +101,7 @@ impl Engine for E {
                     "harness encoder of the contract-side format (little-endian, size lengths, LEB128, enum tags), base58check and base64 are written from the format rules; chrono (shared with the library) renders the expected RFC 3339 text".into(),
                     "collections of zero-width elements only with small declared lengths; hostile bytes only under types without such collections (O2); nesting <= 32 (O1)".into(),
                 ];
-                p.floors = vec![("convert.serial_value".into(), if quick { 10_000 } else { 1_000_000 }), ("convert.to_json".into(), if quick { 10_000 } else { 1_000_000 }), ("hostile.accepted".into(), 5000), ("hostile.rejected".into(), 20_000), ("enum_boundary.serial_value".into(), 1000), ("enum_boundary.variants.255".into(), 20), ("enum_boundary.variants.256".into(), 20), ("enum_boundary.variants.257".into(), 20), ("enum_boundary.variants.65535".into(), 10), ("enum_boundary.variants.65536".into(), 10), ("enum_boundary.variants.65537".into(), 10), ("hostile.declared_bytelist_beyond_input".into(), 500), ("hostile.declared_bytearray_beyond_input".into(), 200), ("max.hostile.declared_len".into(), u32::MAX as u64), ("max.convert.type_depth".into(), 32), ("convert.depth.32".into(), 100), ("ctor.Enum>256".into(), 20)];
+                p.floors = vec![("convert.serial_value".into(), if quick { 10_000 } else { 1_000_000 }), ("convert.to_json".into(), if quick { 10_000 } else { 1_000_000 }), ("hostile.accepted".into(), 5000), ("hostile.rejected".into(), 20_000), ("long_collection.4096".into(), 30), ("long_collection.4097".into(), 30), ("long_collection.gt4097".into(), 30), ("long_collection.to_json".into(), 300), ("text_values.string.non_ascii".into(), 1000), ("text_values.timestamp.nonzero_offset".into(), 1000), ("enum_boundary.serial_value".into(), 1000), ("enum_boundary.variants.255".into(), 20), ("enum_boundary.variants.256".into(), 20), ("enum_boundary.variants.257".into(), 20), ("enum_boundary.variants.65535".into(), 10), ("enum_boundary.variants.65536".into(), 10), ("enum_boundary.variants.65537".into(), 10), ("hostile.declared_bytelist_beyond_input".into(), 500), ("hostile.declared_bytearray_beyond_input".into(), 200), ("max.hostile.declared_len".into(), u32::MAX as u64), ("max.convert.type_depth".into(), 32), ("convert.depth.32".into(), 100), ("ctor.Enum>256".into(), 20)];
                 for c in ["Unit", "Bool", "U8", "U16", "U32", "U64", "U128", "I8", "I16", "I32", "I64", "I128", "Amount", "AccountAddress", "ContractAddress", "Timestamp", "Duration", "Pair", "List", "Set", "Map", "Array", "Struct", "Enum", "String", "ContractName", "ReceiveName", "ULeb128", "ILeb128", "ByteList", "ByteArray", "TaggedEnum"] {
                     p.floors.push((format!("ctor.{}", c), 200));
                 }
